@@ -2,21 +2,23 @@
 # usage: regress_seeds.sh [seed-glob]   (default: all kept seeds)
 # Re-checks every kept seeded change against the CURRENT contracts without touching /repo: a scratch worktree of
 # /repo's HEAD (contract files included) gets each patch in turn and the property's quick check runs there
-# (GOWP_REPO). Prints one line per seed: caught / MISSED / does-not-apply. Removes the worktree afterwards.
+# (GOWP_REPO: no evidence is written, the contract lock is not consulted). One line per seed:
+# caught (n) / MISSED / ERROR (engine exit 2) / does-not-apply. Removes the worktree afterwards.
 cd /verif && . ./env.sh
 wt=/tmp/regress_wt_$$
 git -C /repo worktree add --detach -q $wt HEAD || exit 2
 trap 'git -C /repo worktree remove --force '$wt EXIT
-export GOWP_REPO=$wt GOWP_OUT=/tmp/regress_out_$$
+export GOWP_REPO=$wt GOWP_OUT=/tmp/regress_out_$$ GOWP_NOLOCK=1
 for d in /verif/seeded/${1:-C*}; do
   [ -f $d/patch.diff ] || continue
   s=$(basename $d); p=${s%%-*}
   if ! git -C $wt apply $d/patch.diff 2>/dev/null; then
     # patches taken against an older HEAD: try a 3-way apply
-    if ! git -C $wt apply --3way $d/patch.diff >/dev/null 2>&1; then echo "$s does-not-apply"; git -C $wt checkout -q -- . ; git -C $wt reset -q --hard; continue; fi
+    if ! git -C $wt apply --3way $d/patch.diff >/dev/null 2>&1; then echo "$s does-not-apply"; git -C $wt reset -q --hard; continue; fi
   fi
-  n=$(bin/gowp check --property $p --tier quick 2>&1 | grep -c '^VIOLATION')
-  if [ "$n" -gt 0 ]; then echo "$s caught ($n)"; else echo "$s MISSED"; fi
+  out=$(bin/gowp check --property $p --tier quick 2>&1); code=$?
+  n=$(echo "$out" | grep -c '^VIOLATION')
+  if [ "$n" -gt 0 ]; then echo "$s caught ($n)"; elif [ $code -ne 0 ]; then echo "$s ERROR exit=$code $(echo "$out" | grep 'gowp:\|ENGINE' | head -1 | cut -c1-160)"; else echo "$s MISSED"; fi
   git -C $wt reset -q --hard
 done
 rm -rf /tmp/regress_out_$$
